@@ -17,37 +17,51 @@
 (* a response only if one with its id was injected before, with a timeout   *)
 (* only after the 7th transmission; when the execution ends nothing is      *)
 (* pending and the table is empty (it never hangs).                         *)
+(* Last phase (ClientTxn!RtxSlow, CloseBlocked, RtxWriteDone): a            *)
+(* retransmission stays inside the socket write while Client.Close is       *)
+(* called, then fails.  The timer callback holds the table lock: nobody is  *)
+(* told "closed" and Close does not return before the write has returned;   *)
+(* afterwards everybody has returned, once.                                 *)
 (***************************************************************************)
 EXTENDS Integers, Sequences, TLC, Json
 
 CONSTANT TraceFile
 Tr == ndJsonDeserialize(TraceFile)
 
-VARIABLES l, st, sent, resp
-tvars == <<l, st, sent, resp>>
+VARIABLES l, st, sent, resp, inw, closing
+\* inw: the transaction whose retransmission is inside the socket write ("" = none); closing: Close has been called
+tvars == <<l, st, sent, resp, inw, closing>>
 Line == Tr[l]
 IsEvent(e) == l <= Len(Tr) /\ Line.e = e /\ l' = l + 1
 Put(f, k, v) == [x \in DOMAIN f \cup {k} |-> IF x = k THEN v ELSE f[x]]
 
-TInit == l = 1 /\ st = <<>> /\ sent = <<>> /\ resp = {}
-TReset == IsEvent("Reset") /\ st' = <<>> /\ sent' = <<>> /\ resp' = {}
+TInit == l = 1 /\ st = <<>> /\ sent = <<>> /\ resp = {} /\ inw = "" /\ closing = FALSE
+TReset == IsEvent("Reset") /\ st' = <<>> /\ sent' = <<>> /\ resp' = {} /\ inw' = "" /\ closing' = FALSE
 TStart == IsEvent("Start") /\ Line.t \notin DOMAIN st
-          /\ st' = Put(st, Line.t, "pending") /\ sent' = Put(sent, Line.t, 0) /\ UNCHANGED resp
+          /\ st' = Put(st, Line.t, "pending") /\ sent' = Put(sent, Line.t, 0) /\ UNCHANGED <<resp, inw, closing>>
 \* a transmission: only of a pending transaction, the n-th after the (n-1)-th, at most 7
 TSent  == IsEvent("Sent") /\ Line.t \in DOMAIN st /\ st[Line.t] = "pending"
           /\ Line.n = sent[Line.t] + 1 /\ Line.n <= 7
-          /\ sent' = Put(sent, Line.t, Line.n) /\ UNCHANGED <<st, resp>>
-TResp  == IsEvent("Resp") /\ resp' = resp \cup {Line.t} /\ UNCHANGED <<st, sent>>
+          /\ sent' = Put(sent, Line.t, Line.n) /\ UNCHANGED <<st, resp, inw, closing>>
+TResp  == IsEvent("Resp") /\ resp' = resp \cup {Line.t} /\ UNCHANGED <<st, sent, inw, closing>>
 \* completion: once; a response only if one was injected, a timeout only after the 7th transmission
 TRet   == IsEvent("Ret") /\ Line.t \in DOMAIN st /\ st[Line.t] = "pending"
           /\ \/ Line.res = "resp" /\ Line.t \in resp
              \/ Line.res = "timeout" /\ sent[Line.t] = 7
-          /\ st' = Put(st, Line.t, "done") /\ UNCHANGED <<sent, resp>>
+             \/ Line.res = "closed" /\ closing /\ inw = ""           \* Close waits for the callback that is inside the write
+             \/ Line.res = "writeerr" /\ inw = "" /\ sent[Line.t] >= 2  \* (this driver fails retransmissions only)
+          /\ st' = Put(st, Line.t, "done") /\ UNCHANGED <<sent, resp, inw, closing>>
 TEnd   == IsEvent("End")
           /\ \A t \in DOMAIN st : st[t] = "done"
           /\ Line.outstanding = 0 /\ Line.table = 0
-          /\ UNCHANGED <<st, sent, resp>>
-TNext == TReset \/ TStart \/ TSent \/ TResp \/ TRet \/ TEnd
+          /\ UNCHANGED <<st, sent, resp, inw, closing>>
+TWEnter == IsEvent("WriteEnter") /\ inw = "" /\ st[Line.t] = "pending" /\ inw' = Line.t /\ UNCHANGED <<st, sent, resp, closing>>
+TWExit  == IsEvent("WriteExit") /\ inw = Line.t /\ inw' = "" /\ UNCHANGED <<st, sent, resp, closing>>
+TCloseCall == IsEvent("CloseCall") /\ closing' = TRUE /\ UNCHANGED <<st, sent, resp, inw>>
+TCloseRet  == IsEvent("CloseRet") /\ closing /\ inw = "" /\ UNCHANGED <<st, sent, resp, inw, closing>>
+TEnd2  == IsEvent("End2") /\ Line.outstanding = 0 /\ (\A t \in DOMAIN st : st[t] = "done") /\ UNCHANGED <<st, sent, resp, inw, closing>>
+TNote  == IsEvent("Note") /\ UNCHANGED <<st, sent, resp, inw, closing>>
+TNext == TReset \/ TStart \/ TSent \/ TResp \/ TRet \/ TEnd \/ TWEnter \/ TWExit \/ TCloseCall \/ TCloseRet \/ TEnd2 \/ TNote
 TSpec == TInit /\ [][TNext]_tvars
 
 Progress == TLCSet(1, IF l > TLCGet(1) THEN l ELSE TLCGet(1))
